@@ -14,10 +14,10 @@ def gen(rng, sc, n):
             lines.append(l)
             meta[l] = (mt, its)
     for i in range(n):
-        mt, items = cc.gen_message(rng, sc)
+        mt, items = cc.gen_message(rng, sc, trailer_plain=0.25)
         add(mt, items, rng.choice((1, 2, 3)))
     for mt, _ in sc['msgs']:
-        mt2, items = cc.gen_message(rng, sc, p_opt=1.0, msgtype=mt)
+        mt2, items = cc.gen_message(rng, sc, p_opt=1.0, msgtype=mt, trailer_plain=0.5)
         add(mt2, items, 2)
     for target in (99, 100, 101, 999, 1000, 1001, 100, 1000):
         for _ in range(40):
